@@ -46,6 +46,11 @@ def scenarios(ctx):
             order = rnd.choice(("q1 s1 q2 s2", "q1 q2 s1 s2", "q1 s1 s2 q2"))
             parts = {"q1": (">", ex["q"][:a]), "q2": (">", ex["q"][a:]), "s1": ("<", ex["s"][:b]), "s2": ("<", ex["s"][b:])}
             out.append(streams.scn_from_exchange("ex/%s.dc%d" % (name, k), ex, [parts[x] for x in order.split()]))
+    # structural interleavings (up to two cuts per stream at line / head / body boundaries, pieces interleaved) of the CONNECT / Upgrade exchanges
+    out += gens.structural(ctx.seed, q, names=NAMES)
+    for name, ex in extra_exchanges().items():
+        for label, arr in streams.structural_interleavings(ex, rnd, 150 if q else 2000):
+            out.append(streams.scn_from_exchange("ex/%s.%s" % (name, label), ex, arr))
     # corpus captures that contain CONNECT
     out += [s for s in gens.corpus(ctx.seed, q, nrand=2 if q else 10, mutants=1 if q else 6) if "connect" in s.name]
     return out
